@@ -374,7 +374,7 @@ func runC19(c *Ctx) {
 	}
 
 	// (5) checkSend
-	if fn := c.mustFn(rel, "(*sender).checkSend"); fn != nil {
+	if fn := c.fnOrSuccessor(rel, "(*sender).checkSend", fSet, fSendCnt, fCounterT); fn != nil {
 		name := "(*vcode.sender).checkSend"
 		traces, _ := c.Trace(fn, cfg)
 		ok, n := true, 0
